@@ -126,9 +126,17 @@ def c18_order(rp):
 @searcher("c18_order")
 def c18_order_search(rp, seed):
     rnd = random.Random(seed)
-    for _ in range(20000):
-        a = [rnd.choice([-3, -1, 0, 0.5, 1, 2, 3, 25, 25.5]), rnd.choice([-2, 0, 0.5, 1, 2, 3, 8.5])]
-        b = [rnd.choice([-3, -1, 0, 0.5, 1, 2, 3, 25, 25.5]), rnd.choice([-2, 0, 0.5, 1, 2, 3, 8.5])]
+    mus = [25, 30, 0.3, 0.1, 0.7, 1.1, 2.2, 10, 27.5, 33, 1e-3, 12.3]
+    for k in range(20000):
+        if k % 2:
+            a = [rnd.choice([-3, -1, 0, 0.5, 1, 2, 3, 25, 25.5]), rnd.choice([-2, 0, 0.5, 1, 2, 3, 8.5])]
+            b = [rnd.choice([-3, -1, 0, 0.5, 1, 2, 3, 25, 25.5]), rnd.choice([-2, 0, 0.5, 1, 2, 3, 8.5])]
+        else:
+            # ordinals tied or a few ulps apart with sigmas that are not exactly representable:
+            # where an algebraic rearrangement of mu - 3 sigma rounds differently
+            ma, mb = rnd.choice(mus), rnd.choice(mus)
+            sh = rnd.choice([0, 0, 0.1, 1, 1e-16])
+            a, b = [ma, ma / 3], [mb + sh, mb / 3 + sh / 3]
         r2 = dict(rp, a=[enc(a[0]), enc(a[1])], b=[enc(b[0]), enc(b[1])])
         bad, msg = c18_order(r2)
         if bad:
@@ -625,6 +633,16 @@ def c20_chain_search(rp, seed):
 def concrete_obj(info, own_model):
     """A concrete value for an AnyObj: info = {'tag': name, 'truthy': bool}"""
     tag, truthy = info.get("tag", "other-object"), info.get("truthy", True)
+    if "items" in info and tag in ("str", "tuple", "dict", "list"):
+        # a container the code iterated: the elements the failing path chose
+        els = [num(d["v"]) if d.get("t") == "num" else concrete_obj(d, own_model) for d in info["items"]]
+        if tag == "str":
+            return "abcdefgh"[:len(els)]
+        if tag == "tuple":
+            return tuple(els)
+        if tag == "list":
+            return els
+        return {(e if isinstance(e, (int, float, str, tuple, type(None))) else ("k", i)): i for i, e in enumerate(els)}
     if tag == "None":
         return None
     if tag == "bool":
@@ -852,7 +870,8 @@ def c03_order_search(rp, seed):
             r2["a"] = {"ranks": [enc(x) for x in base]}
             r2["b"] = {"ranks": [enc(f(x)) for x in base]}
         elif form == "scores":
-            sc = [rnd.choice([0, 1, 2.5, -1, 3]) for _ in range(n)]
+            pool = [0, 1, 2.5, -1, 3] if rnd.random() < 0.5 else [250.0, 1e-14, 0.0, 1e17, 2.0, 1.0, -1e-17, -2e-17, 3]
+            sc = [rnd.choice(pool) for _ in range(n)]
             r2["a"] = {"scores": [enc(x) for x in sc]}
             r2["b"] = {"ranks": [enc(-x) for x in sc]}
         else:
@@ -877,7 +896,7 @@ def c03_neg(rp):
 
 
 # ---------------------------------------------------------------- C01 (and the rate-level numeric replays)
-def _custom_gamma(c, k, mu, sigma_squared, team, rank):
+def _custom_gamma(c, k, mu, sigma_squared, team, rank, /):
     return 0.25 + 0.1 * rank + 1.0 / k + 0.01 * abs(mu) / (1.0 + abs(mu)) + 0.5 * sigma_squared / (c * c)
 
 
@@ -1434,8 +1453,15 @@ def c19_predict(rp):
 @searcher("c19_predict")
 def c19_predict_search(rp, seed):
     rnd = random.Random(seed)
-    for _ in range(200):
-        r2 = dict(rp, game=_rand_pred(rnd, rp["sizes"]), beta=enc(25 / 6))
+    sizes = rp["sizes"]
+    for k in range(300):
+        gm = _rand_pred(rnd, sizes)
+        if k % 3 == 0:
+            # value-identical teams: tied probabilities
+            for i in range(1, len(sizes)):
+                if sizes[i] == sizes[0] and rnd.random() < 0.7:
+                    gm[i] = gm[0]
+        r2 = dict(rp, game=gm, beta=enc(rnd.choice([25 / 6, 1.0, 0.3])))
         try:
             bad, msg = c19_predict(r2)
         except Exception:  # noqa: BLE001
@@ -1451,7 +1477,10 @@ def c19_btp(rp):
     for name in ("BradleyTerryFull", "BradleyTerryPart"):
         kw = {"gamma": _custom_gamma} if rp.get("gamma") == "custom" else {}
         m = mk_model(name, rp["params"], **kw)
-        out[name] = values(m.rate(mk_game(name, rp["game"]), ranks=rp.get("ranks")))
+        try:
+            out[name] = values(m.rate(mk_game(name, rp["game"]), ranks=rp.get("ranks")))
+        except Exception as e:  # noqa: BLE001
+            out[name] = ("raises", type(e).__name__, str(e)[:80])
     return out["BradleyTerryFull"] != out["BradleyTerryPart"], f"two-team game: BradleyTerryFull {str(out['BradleyTerryFull'])[:90]} ; BradleyTerryPart {str(out['BradleyTerryPart'])[:90]}"
 
 
@@ -1523,7 +1552,9 @@ def c19_registry(rp):
 def c19_rating(rp):
     A, B = rating_cls(rp["a"]), rating_cls(rp["b"])
     what = rp["what"]
-    for (mu1, s1, mu2, s2) in ((1.0, 2.0, 1.0, 2.0), (3.0, 1.0, 0.0, 0.0), (0.0, 1.0, 3.0, 2.0), (5, 1, 5.0, 1.0)):
+    for (mu1, s1, mu2, s2) in ((1.0, 2.0, 1.0, 2.0), (3.0, 1.0, 0.0, 0.0), (0.0, 1.0, 3.0, 2.0), (5, 1, 5.0, 1.0),
+                               # tied / nearly tied ordinals with sigmas that are not exactly representable
+                               (25, 25 / 3, 30, 10), (0.3, 0.1, 30.0, 10.0), (10, 10 / 3, 30.1, 30.1 / 3), (30, 10, 25, 25 / 3)):
         res = []
         for R in (A, B):
             a, b = R(mu1, s1, "A"), R(mu2, s2)
